@@ -38,6 +38,12 @@ def all_cases(tier):
                 out.append({"kind": "loader", "n": n, "batch": b, "transform": tr})
             for yl in ("column", "onehot3", "list"):          # label containers other than a 1-D array
                 out.append({"kind": "loader", "n": n, "batch": b, "transform": "default", "ylayout": yl})
+    # sizes around the limits of narrow integer types (counts / indices kept in 8 or 16 bits)
+    for n in (127, 128, 129, 255, 256, 257, 300):
+        out.append({"kind": "split", "n": n, "test": 0.5, "val": 0.5, "shuffle": None})
+        out.append({"kind": "split", "n": n, "test": 0.25, "val": None, "shuffle": "seed1"})
+        out.append({"kind": "loader", "n": n, "batch": 1, "transform": "none"}); out.append({"kind": "loader", "n": n, "batch": 127, "transform": "identity"})
+        out.append({"kind": "onehot", "labels": list(range(n - 1, -1, -1)) + [0, n - 1]})
     for n, b in ((4, 2), (5, 2), (6, 3), (3, 3), (2, 3)):
         for ret in ("list", "dict", "triple", "array"):
             out.append({"kind": "loader_transform_result", "n": n, "batch": b, "returns": ret})
